@@ -100,7 +100,7 @@ def run(tier, replay=None):
     }, [
         "characters are classes with one representative each; <FF> stands for a byte that is not valid UTF-8",
         "the shell is the sandbox's /bin/sh (dash) with LC_ALL=C; the model of its double-quote reader is itself validated against it on every row",
-        "job scripts use a minimal template with __MRO_CMD__, __MRO_STDOUT__, __MRO_STDERR__, __MRO_JOB_WORKDIR__, __MRO_JOB_NAME__; the string is used as argument, environment value (also one containing a placeholder name) and inside the metadata path",
+        "job scripts are rendered by job managers with and without the debug setting of mrp --debug; they use a minimal template with __MRO_CMD__, __MRO_STDOUT__, __MRO_STDERR__, __MRO_JOB_WORKDIR__, __MRO_JOB_NAME__; the string is used as argument, environment value (also one containing a placeholder name) and inside the metadata path",
     ], time.time() - t0, violations=nunk)
     return rc
 
